@@ -141,6 +141,10 @@ def candidates(F, policy, baseline):
             continue
         if b.hash in ch or len(b.blocks) > MAX_BLOCKS or _directly_recursive(b):
             continue
+        if any(c is not None and c.best_hash in ch for bi, c, t in b.calls()):
+            # a checked / convenience wrapper directly around a case constructor is an anchor with rules of its own (what it validates,
+            # what it refuses): folding it into its callers would hide it from those rules
+            continue
         if policy == 'new-helpers' and (baseline is None or b.path in baseline):
             continue
         out[b.hash] = b
